@@ -34,6 +34,8 @@ def check(run, repo, tier):
   r1_removal_funnel(run, w, "C10-R1")
   r2_cleanup_loop(run, w)
   r3_registration(run, w)
+  from ._extra import c10_updates_unfiltered
+  c10_updates_unfiltered(run, w, "C10-R2")
 
 
 # ------------------------------------------------------------------------------------------ R2
